@@ -4,13 +4,13 @@ from fv.symx import And, Or, Not, Eq, Implies, Iff
 
 # module kinds -------------------------------------------------------------------------------------
 # every builder returns (yaml-info dict, spec record) ; numbers come from I (symbolic or concrete)
-KINDS = ['S_area', 'S_center_ar', 'S_regions', 'S_one_region', 'S_one_region_rect', 'S_rect', 'S_regions_rects', 'H1', 'H2flip', 'H2', 'H3', 'F1', 'T', 'Tfixed']
+KINDS = ['F1flat', 'H1flat', 'H2eq', 'S2eq', 'S_area', 'S_center_ar', 'S_regions', 'S_one_region', 'S_one_region_rect', 'S_rect', 'S_regions_rects', 'H1', 'H2flip', 'H2', 'H3', 'F1', 'T', 'Tfixed']
 
 
 def build_module(I, name, kind, idx):
     t = f'm{idx}'
     x0 = 10.0 * idx  # modules are laid out side by side so that nothing depends on inter-module overlap
-    spec = dict(name=name, kind=kind, soft=kind.startswith('S'), hard=not kind.startswith('S'), fixed=kind in ('F1', 'Tfixed'),
+    spec = dict(name=name, kind=kind, soft=kind.startswith('S'), hard=not kind.startswith('S'), fixed=kind in ('F1', 'F1flat', 'Tfixed'),
                 terminal=kind in ('T', 'Tfixed'), flip=kind == 'H2flip', areas=None, center=None, ar=None, rects=[])
     info = {}
     if kind == 'S_area':
@@ -55,6 +55,25 @@ def build_module(I, name, kind, idx):
         info = {'area': {'_': a, 'dsp': b}, 'rectangles': [r0, r1]}
         spec['areas'] = {'_': a, 'dsp': b}
         spec['rects'] = [tuple(r0) + ('_',), tuple(r1)]
+    elif kind in ('H1flat', 'F1flat'):
+        # the single-rectangle shorthand: rectangles: [x, y, w, h]
+        x, w = I.real(t + 'x', 0, 5), I.real(t + 'w', 0.1, 4)
+        info = {('fixed' if kind == 'F1flat' else 'hard'): True, 'rectangles': [x0 + x + w / 2, 1.5, w, 3.0]}
+        spec['rects'] = [(x0 + x + w / 2, 1.5, w, 3.0, '_')]
+        spec['fixed'] = kind == 'F1flat'
+    elif kind in ('H2eq', 'S2eq'):
+        # two rectangles of equal area sharing a complete side: either can serve as trunk
+        x, w = I.real(t + 'x', 0, 2), I.real(t + 'w', 0.1, 3)
+        r0 = [x0 + x + w / 2, 1.0, w, 2.0]
+        r1 = [x0 + x + w + w / 2, 1.0, w, 2.0]
+        if kind == 'H2eq':
+            info = {'hard': True, 'rectangles': [r0, r1]}
+            spec['rects'] = [tuple(r0) + ('_',), tuple(r1) + ('_',)]
+        else:
+            a, b = I.real(t + 'a', 0.01, 100), I.real(t + 'b', 0.01, 100)
+            info = {'area': {'_': a, 'dsp': b}, 'rectangles': [r0, r1 + ['dsp']]}
+            spec['areas'] = {'_': a, 'dsp': b}
+            spec['rects'] = [tuple(r0) + ('_',), tuple(r1) + ('dsp',)]
     elif kind in ('H1', 'F1'):
         x, w = I.real(t + 'x', 0, 5), I.real(t + 'w', 0.1, 4)
         info = {('fixed' if kind == 'F1' else 'hard'): True, 'rectangles': [[x0 + x + w / 2, 1.5, w, 3.0]]}
@@ -160,6 +179,8 @@ STRUCTS = {
         dict(modules=['T', 'Tfixed', 'S_center_ar'], nets=[((0, 1, 2), 'sym')]),
         dict(modules=['H2', 'S_area'], nets=[]),
         dict(modules=['S_one_region', 'H3', 'S_one_region_rect'], nets=[((2, 0, 1), 'sym')]),
+        dict(modules=['F1flat', 'H2eq', 'S2eq'], nets=[((0, 1), 'sym'), ((1, 2), 'none')]),
+        dict(modules=['H1flat', 'S_area'], nets=[((0, 1), 'one')]),
     ],
     'thorough': [
         dict(modules=['S_regions', 'H2flip', 'F1'], nets=[((0, 1, 2), 'sym'), ((2, 0), 'none')]),
